@@ -7,6 +7,11 @@ BASELINE = "cd /repo && /venv/bin/python -m pytest -ra -q -p no:cacheprovider --
 
 # id -> (level category, engine, technique, level text, level note, design ref)
 CLAIMS = {
+    "C11": ("model_checking", "SharedCore,Gen_SharedCore,Trace_SharedCore",
+            "TLC model checking of SharedCore.tla (exception registry across generation histories) + the tree of all histories replayed with real generations into one sandbox project, imports checked after every step; TLA+ trace monitor",
+            "SharedCore.tla (registry, aliases, needs, generated; SharedDetected = the code's path heuristic) is model-checked for 3 clients x code sets x force x core depth 0..3 x histories <=4 (Served / NeverShrinksNeeded per depth); every history <=3 over 2 clients (thorough <=4 over 3) is replayed with real generate calls; after each step a generator-less interpreter imports every client generated so far and resolves every name its endpoints take from the core; Trace_SharedCore.tla judges and the projected real state is compared with the specification's successor state",
+            "trusts TLC; the per-step fresh interpreter is a fork of a zygote with only httpx/cattrs loaded, cross-checked against a newly exec'ed interpreter on a sample of steps",
+            "DESIGN.md section 4 C11; docs/C11_NOTES.md"),
     "C03": ("exploration", "Gen_Models,Trace_RoundTrip",
             "TLC-enumerated object schemas and conforming instances; round trip through the EMITTED converter of each generated package; TLA+ monitor with the property's tolerance (RoundTripOK, KeysBijective)",
             "every single-property schema over 20 property types x required/optional x 11 key styles and two-property schemas over 7 types x style pairs (TLC Gen_Models), each with every presence subset of optional properties x 2 values per leaf; each instance is structured and unstructured by the generated package's own converter with the generator blocked; Trace_RoundTrip.tla compares tagged JSON trees and checks the emitted Meta maps are inverse bijections",
